@@ -940,3 +940,101 @@ Qed.
 End Eval3.
 
 End Run3.
+
+Print Assumptions compile_correct3.
+Print Assumptions eval_fragment3.
+
+(* the state in which an evaluation ends with `Done` satisfies the hypotheses of the next one:
+   sessions compose *)
+Lemma done_state_ok rho m : minv m -> genv_rel3 rho m ->
+  minv (with_stack m tempty (sp m)) /\ genv_rel3 rho (with_stack m tempty (sp m)).
+Proof.
+  intros [HI GI SP] G. split; [constructor; assumption|].
+  apply (genv_rel3_ext rho m); [|reflexivity|exact G]. apply rext_same; try reflexivity; lia.
+Qed.
+
+(* ============================================================ non-vacuity *)
+(* (((lambda (x) (lambda (y) (if y x 'no))) '(1 2)) #t): a closure that captures x escapes from
+   the activation that created it and is applied afterwards *)
+Definition ex4_inner : expr3 := YIf (YVar (S_ "y")) (YVar (S_ "x")) (YQuote (CSym (S_ "no"))).
+Definition ex4_e : expr3 :=
+  YApp (YApp (YLam [S_ "x"] [] (YLam [S_ "y"] [S_ "x"] ex4_inner)) [YQuote ex2_list]) [YConst (CBool true)].
+
+Ltac in_cases H := repeat (destruct H as [<-|H]; [|]); try contradiction.
+
+Lemma ex4_hypotheses :
+  wf3 ex4_e [] /\ minv (vm_empty 8192) /\ genv_rel3 rho3_empty (vm_empty 8192) /\
+  ref_eval3 bsem_not [] [] rho3_empty ex4_e (R3Base (RDatum ex2_list)) rho3_empty.
+Proof.
+  split.
+  { apply wf3_app. split; [reflexivity|]. split; [|repeat constructor].
+    apply wf3_app. split; [reflexivity|]. split; [|repeat constructor; cbn; tauto].
+    cbn [wf3]. split; [intros x [<-|[]]; reflexivity|]. split; [reflexivity|].
+    split; [vm_compute; reflexivity|]. split.
+    { intros x Hx. cbn in Hx. destruct Hx as [<-|[<-|[]]]; [right; left; reflexivity|left; left; reflexivity]. }
+    split; [intros x [<-|[]]; reflexivity|]. split; [reflexivity|]. split; [vm_compute; reflexivity|]. split.
+    { intros x Hx. cbn in Hx. destruct Hx as [<-|[<-|[]]]; [left; left; reflexivity|right; right; left; reflexivity]. }
+    cbn. repeat split. }
+  split; [apply minv_vm_empty; reflexivity|]. split; [apply genv_rel3_empty|].
+  eapply (R3_app_closure bsem_not _ _ _ _ _ [R3Base (RDatum (CBool true))] _ [S_ "y"] [S_ "x"] ex4_inner [R3Base (RDatum ex2_list)]).
+  - eapply R3_cons; [apply R3_const|apply R3_nil].
+  - eapply (R3_app_closure bsem_not _ _ _ _ _ [R3Base (RDatum ex2_list)] _ [S_ "x"] [] _ []).
+    + eapply R3_cons; [apply R3_quote|apply R3_nil].
+    + apply (R3_lam bsem_not [] [] _ [S_ "x"] [] _ []). constructor.
+    + reflexivity.
+    + apply (R3_lam bsem_not [S_ "x"] [R3Base (RDatum ex2_list)] _ [S_ "y"] [S_ "x"] ex4_inner [R3Base (RDatum ex2_list)]).
+      constructor; [|constructor]. exists 0. split; reflexivity.
+  - reflexivity.
+  - eapply R3_if_t.
+    + apply (R3_local bsem_not _ _ _ _ 0); reflexivity.
+    + reflexivity.
+    + apply (R3_local bsem_not _ _ _ _ 1); reflexivity.
+Qed.
+
+(* a session: (define loop (lambda (x) (if x (loop #f) 'done))), then (loop #t): a named procedure,
+   called by name from a later expression, RECURSIVE through its global (the lookup happens at
+   call time), both calls of the second form in tail position *)
+Definition ex5_body : expr3 :=
+  YIf (YVar (S_ "x")) (YApp (YVar (S_ "loop")) [YConst (CBool false)]) (YQuote (CSym (S_ "done"))).
+Definition ex5_clo : rval3 := R3Clo [S_ "x"] [] ex5_body [].
+Definition ex5_def : expr3 := YDefine (S_ "loop") (YLam [S_ "x"] [S_ "loop"] ex5_body).
+Definition ex5_call : expr3 := YApp (YVar (S_ "loop")) [YConst (CBool true)].
+Definition ex5_rho : env3 := upd3 rho3_empty (S_ "loop") ex5_clo.
+
+Lemma ex5_hypotheses :
+  wf3 ex5_def [] /\ wf3 ex5_call [] /\
+  ref_eval3 bsem_not [] [] rho3_empty ex5_def (R3Base (RDatum CVoid)) ex5_rho /\
+  ref_eval3 bsem_not [] [] ex5_rho ex5_call (R3Base (RDatum (CSym (S_ "done")))) ex5_rho.
+Proof.
+  assert (Wb : wf3 ex5_body [S_ "x"]).
+  { cbn [wf3 ex5_body]. split; [reflexivity|]. split; [|cbn; tauto].
+    split; [reflexivity|]. split; [reflexivity|]. split; [|exact I]. cbn. tauto. }
+  split.
+  { cbn [wf3 ex5_def]. split; [reflexivity|]. split; [reflexivity|].
+    split; [intros x [<-|[]]; reflexivity|]. split; [reflexivity|]. split; [vm_compute; reflexivity|]. split.
+    { intros x Hx. right; left. reflexivity. }
+    exact Wb. }
+  split.
+  { apply wf3_app. split; [reflexivity|]. split; [reflexivity|]. repeat constructor. }
+  split.
+  { apply (R3_define bsem_not [] [] rho3_empty (S_ "loop") _ ex5_clo rho3_empty).
+    apply (R3_lam bsem_not [] [] _ [S_ "x"] [S_ "loop"] ex5_body []). constructor. }
+  assert (Hg : forall sc lv, pindex (S_ "loop") sc = None ->
+             ref_eval3 bsem_not sc lv ex5_rho (YVar (S_ "loop")) ex5_clo ex5_rho).
+  { intros sc lv Hp. apply R3_global; [exact Hp|reflexivity|discriminate]. }
+  eapply (R3_app_closure bsem_not _ _ _ _ _ [R3Base (RDatum (CBool true))] _ [S_ "x"] [] ex5_body []).
+  - eapply R3_cons; [apply R3_const|apply R3_nil].
+  - apply Hg. reflexivity.
+  - reflexivity.
+  - eapply R3_if_t.
+    + apply (R3_local bsem_not _ _ _ _ 0); reflexivity.
+    + reflexivity.
+    + eapply (R3_app_closure bsem_not _ _ _ _ _ [R3Base (RDatum (CBool false))] _ [S_ "x"] [] ex5_body []).
+      * eapply R3_cons; [apply R3_const|apply R3_nil].
+      * apply Hg. reflexivity.
+      * reflexivity.
+      * eapply R3_if_f.
+        -- apply (R3_local bsem_not _ _ _ _ 0); reflexivity.
+        -- reflexivity.
+        -- apply R3_quote.
+Qed.
